@@ -88,7 +88,7 @@ func init() {
 	// errors.As(err, target): unconstrained verdict; on success *target is set to some error of the chain
 	externs["errors.As"] = func(f *Frame, b *ssa.BasicBlock, in *ssa.Call, args []Val, st *State, g string) Val {
 		e := f.e
-		e.note("assumed contract: errors.As returns an unconstrained verdict (false for a nil error) and stores an unconstrained value through target; no other effect")
+		e.note("assumed contract: errors.As returns an unconstrained verdict (false for a nil error; true, with the target receiving err, when the dynamic type of err itself is one of the module's types assignable to the target type) and otherwise stores an unconstrained value through target; no other effect")
 		res := e.freshConst(hname(f, in, "as"), "Bool")
 		e.assume(implies(eq(app("i_tag", args[0].T), "0"), not(res)))
 		if in != nil {
@@ -98,6 +98,34 @@ func init() {
 					tv := f.val(mi.X)
 					nv := e.freshConst(hname(f, in, "as_target"), e.sortOf(pt.Elem()))
 					f.typeInv(nv, pt.Elem())
+					// the first thing errors.As tries is err itself: when its dynamic type is assignable to the target type
+					// the verdict is true and the target receives err (only the module's own error types are enumerated)
+					var hits []string
+					if it, ok := pt.Elem().Underlying().(*types.Interface); ok {
+						for _, p := range e.prog.AllPackages() {
+							if !strings.HasPrefix(p.Pkg.Path(), modulePath) {
+								continue
+							}
+							for _, m := range p.Members {
+								if tm, ok := m.(*ssa.Type); ok {
+									if _, isIface := tm.Type().Underlying().(*types.Interface); isIface {
+										continue
+									}
+									for _, cand := range []types.Type{tm.Type(), types.NewPointer(tm.Type())} {
+										if types.Implements(cand, it) {
+											hits = append(hits, eq(app("i_tag", args[0].T), itoa(e.tagOf(cand))))
+										}
+									}
+								}
+							}
+						}
+						sort.Strings(hits)
+						if len(hits) > 0 {
+							e.assume(implies(and(g, or(hits...)), and(res, eq(nv, args[0].T))))
+						}
+					} else if _, ok := pt.Elem().Underlying().(*types.Pointer); ok {
+						e.assume(implies(and(g, eq(app("i_tag", args[0].T), itoa(e.tagOf(pt.Elem())))), and(res, eq(nv, app("i_val", args[0].T)))))
+					}
 					f.setHeap(st, h, sto(st.H(h), tv.T, ite(res, nv, sel(st.H(h), tv.T))))
 					return Val{T: res}
 				}
